@@ -282,6 +282,13 @@ fn known_findings(id: &str) -> (Vec<(String, String)>, usize) {
     (v, fixed)
 }
 
+/// Where evidence and replay artefacts go. Always /verif for registered checks; the parallel
+/// seed-matrix tool (tools/par_try.sh) points it at a scratch directory so that runs against
+/// patched copies of the repository never overwrite the evidence of the tree under test.
+pub fn out_root() -> String {
+    std::env::var("VERIF_OUT").unwrap_or_else(|_| "/verif".to_string())
+}
+
 pub fn tier_is_quick(tier: &str) -> bool {
     tier != "thorough"
 }
@@ -412,7 +419,7 @@ pub fn drive(check: Check, tier: &str, seed: i64) -> i32 {
         exit = 1;
         if printed < 12 {
             printed += 1;
-            let dir = format!("/verif/replays/{}", check.id);
+            let dir = format!("{}/replays/{}", out_root(), check.id);
             let _ = std::fs::create_dir_all(&dir);
             let path = format!("{}/{}.json", dir, printed);
             let art = json!({
@@ -470,9 +477,9 @@ pub fn drive(check: Check, tier: &str, seed: i64) -> i32 {
         "wall_s": t0.elapsed().as_secs_f64(),
         "violations": n_viol,
     });
-    let _ = std::fs::create_dir_all("/verif/evidence");
+    let _ = std::fs::create_dir_all(format!("{}/evidence", out_root()));
     std::fs::write(
-        format!("/verif/evidence/{}.json", check.id),
+        format!("{}/evidence/{}.json", out_root(), check.id),
         serde_json::to_string_pretty(&ev).unwrap(),
     )
     .unwrap();
